@@ -42,7 +42,7 @@ ASSUMPTIONS = ['which of two DIFFERENT declared defaults wins is not stated by '
 BOUNDS = {'quick': '2 processes x 5 wirings x default present/absent per '
                    'variable x explicit state present/absent per node x own '
                    'initial_state present/absent, depth 0 or 2, glob port with '
-                   '<=2 children', 'thorough': '3 processes'}
+                   '<=2 children', 'thorough': '3 processes (the third always declares defaults and has no own initial_state, to keep the space exhaustible)'}
 OUTSIDE = 'numpy defaults, quantities as values (pint)'
 
 WIRES = [('A',), ('B',), ('A', 'sub'), ('..', 'A'), ('A', '..', 'B')]
@@ -92,7 +92,7 @@ def part_value(ctx, cfg):
         schema = {'port': {}}
         for var in ('v', 'u'):
             node = resolve(parent, w) + (var,)
-            if ctx.flag('hd'):
+            if (ctx.flag('hd') if i < 2 else True):
                 dv = ctx.int('dv', -9, 9)
                 schema['port'][var] = {'_default': dv}
                 decl.setdefault(node, []).append(dv)
@@ -100,7 +100,7 @@ def part_value(ctx, cfg):
                 schema['port'][var] = {'_updater': 'set'}
                 decl.setdefault(node, [])
         init = {}
-        if ctx.flag('own'):
+        if i < 2 and ctx.flag('own'):
             ov = ctx.int('ov', -9, 9)
             init = {'port': {'v': ov}}
             own[(n, resolve(parent, w) + ('v',))] = ov
